@@ -60,7 +60,10 @@ DefItems(S, cfg, env, frs, X, name) ==
                      \cup (IF dropped = {} THEN {} ELSE {Item("key-dropped-by-utility-type", "a selected key is not declared by the schema type the emitted type refers to, so __SelectionSet drops it and leaves it unconstrained",
                                                                 [ctx |-> ctx, keys |-> dropped])})
 
-TypeNameOf(e, i) == e.typeNames[i]
+(* the name of the type a definition is judged by comes from the documented naming rules (Naming.tla) under the case's `generate.name` options *)
+NM == INSTANCE Naming
+TypeNameOf(e, i) == LET d == e.opFiles[1].doc.defs[i] IN
+                    IF d.k = "op" THEN NM!ResultTypeName(e.nameCfg, IF d.hasName THEN d.name ELSE "") ELSE NM!FragTypeName(e.nameCfg, d.name)
 
 TGen ==
   /\ IsEvent("TypeGen")
